@@ -95,9 +95,13 @@ package font
 //@     invariant 0 <= j && j <= width && i + width <= len(data) && 0 <= i
 //@     decreases width - j
 
+// a CMap that declares a code space decodes with that width (or with the shorter width its own entries use); the
+// byte-by-byte guessing is only for CMaps without any declared width
 //@ func (*CMap) LookupString results (r)
 //@   property C07, C02
 //@   flags readonly, pure
+//@   callsite lookupStringWithWidth(d, w) requires declared_width_unless_entries_are_shorter: w > 0 && w == ((cm.actualByteWidth > 0 && cm.actualByteWidth < cm.byteWidth) ? cm.actualByteWidth : cm.byteWidth)
+//@   atreturn#3 guessing_only_without_a_declared_code_space: cm.byteWidth <= 0
 //@   loop 0:
 //@     invariant 0 <= i && i <= len(data)
 //@     decreases len(data) - i
